@@ -172,6 +172,8 @@ func (a Auth) apply(req *http.Request, form url.Values) {
 	case "none":
 		form.Set("client_id", a.ID)
 	case "omit":
+	case "raw":
+		req.Header.Set("Authorization", a.ID)
 	}
 	for k, vs := range a.Extra {
 		form[k] = vs
